@@ -90,6 +90,7 @@ func gen(rng *rand.Rand, search bool) Input {
 	if rng.Intn(5) < 2 {
 		// a history: drain-support on in 3 of 4
 		in.Drain = rng.Intn(4) > 0
+		in.WatchWithoutClass = true
 		in.Steps = world.EncodeHistory(genSteps(rng, objs, 1+rng.Intn(3)))
 	}
 	return in
@@ -118,6 +119,53 @@ func genSteps(rng *rand.Rand, objs []client.Object, n int) [][]pipeline.Change {
 	return steps
 }
 
+// genIngressStep: an ingress is created, replaced or deleted. The new content is one of: only
+// host-less rules; only a tls block; a rule of a host that (probably) exists already; only
+// spec.defaultBackend; a generated ingress. Valid for the controller without a class
+// (inputs with histories always watch ingresses without class).
+func genIngressStep(rng *rand.Rand, ings []*networking.Ingress) *pipeline.Change {
+	cfg := genCfg()
+	cfg.Classes = false
+	name := world.IngressNames[rng.Intn(len(world.IngressNames))]
+	ns := world.Namespaces[0]
+	if rng.Intn(4) == 0 {
+		ns = world.Namespaces[rng.Intn(len(world.Namespaces))]
+	}
+	var old *networking.Ingress
+	for _, i := range ings {
+		if i.Namespace == ns && i.Name == name {
+			old = i
+		}
+	}
+	if old != nil && rng.Intn(4) == 0 {
+		return &pipeline.Change{Op: pipeline.Delete, Obj: old}
+	}
+	path := func() world.IngPath { return world.GenPath(rng, cfg) }
+	var ing *networking.Ingress
+	switch rng.Intn(6) {
+	case 0, 1: // only host-less rules
+		ing = world.Ingress(ns, name, 40+rng.Intn(20), world.IngRule{Host: "", Paths: []world.IngPath{path(), path()}})
+	case 2: // tls only
+		ing = world.Ingress(ns, name, 40+rng.Intn(20))
+		ing.Spec.TLS = []networking.IngressTLS{{Hosts: []string{hostPool[rng.Intn(4)]}, SecretName: world.SecretNames[rng.Intn(len(world.SecretNames))]}}
+	case 3: // a declared host, most likely one that exists already
+		ing = world.Ingress(ns, name, 5+rng.Intn(60), world.IngRule{Host: hostPool[rng.Intn(4)], Paths: []world.IngPath{path(), path()}})
+	case 4: // only spec.defaultBackend
+		ing = world.Ingress(ns, name, 5+rng.Intn(60))
+		p := path()
+		b := world.Backend(p.Service, p.PortName, p.PortNum)
+		ing.Spec.DefaultBackend = &b
+	default:
+		ing = world.GenIngress(rng, cfg, rng.Intn(len(world.IngressNames)))
+		ing.Namespace, ing.Name = ns, name
+	}
+	if old != nil {
+		ing.CreationTimestamp = old.CreationTimestamp
+		return &pipeline.Change{Op: pipeline.Update, Obj: ing}
+	}
+	return &pipeline.Change{Op: pipeline.Create, Obj: ing}
+}
+
 func genStepChange(rng *rand.Rand, st *world.State) *pipeline.Change {
 	cur := st.Objects()
 	var eps []*api.Endpoints
@@ -131,6 +179,17 @@ func genStepChange(rng *rand.Rand, st *world.State) *pipeline.Change {
 			pods = append(pods, x)
 		case *api.Service:
 			svcs = append(svcs, x)
+		}
+	}
+	var ings []*networking.Ingress
+	for _, o := range cur {
+		if x, ok := o.(*networking.Ingress); ok {
+			ings = append(ings, x)
+		}
+	}
+	if rng.Intn(3) == 0 {
+		if ch := genIngressStep(rng, ings); ch != nil {
+			return ch
 		}
 	}
 	for try := 0; try < 20; try++ {
@@ -395,6 +454,119 @@ func run(o *hx.Opts, in Input) []runResult {
 		stages = append(stages, observe(p, in, state.Objects(), err))
 	}
 	return stages
+}
+
+// c01DefaultBackendCause: is the observation what the current cluster gives when the
+// spec.defaultBackend of the ingresses created / updated / deleted by the steps so far is read in
+// another of its historical states (absent, or as it was before a step)?
+func c01DefaultBackendCause(in Input, si int, rr runResult, rq Req, ob Observed) string {
+	hist := world.DecodeHistory(in.Steps)
+	// versions of the touched ingresses: name -> list of defaultBackend values seen (nil = none)
+	type ver = *networking.IngressBackend
+	versions := map[string][]ver{}
+	for _, o := range world.DecodeObjs(in.Objects) {
+		if ing, ok := o.(*networking.Ingress); ok {
+			versions[ing.Namespace+"/"+ing.Name] = []ver{ing.Spec.DefaultBackend}
+		}
+	}
+	touched := map[string]bool{}
+	for _, step := range hist[:si] {
+		for _, ch := range step {
+			ing, ok := ch.Obj.(*networking.Ingress)
+			if !ok {
+				continue
+			}
+			k := ing.Namespace + "/" + ing.Name
+			touched[k] = true
+			if ch.Op == pipeline.Delete {
+				versions[k] = append(versions[k], nil)
+			} else {
+				versions[k] = append(versions[k], ing.Spec.DefaultBackend)
+			}
+		}
+	}
+	any := false
+	for k := range touched {
+		for _, v := range versions[k] {
+			if v != nil {
+				any = true
+			}
+		}
+	}
+	if !any {
+		return ""
+	}
+	// try: every touched ingress with each of its historical defaultBackend values (small product, capped)
+	keys := hx.SortedKeys(touched)
+	var try func(i int, objs []client.Object, budget *int) bool
+	try = func(i int, objs []client.Object, budget *int) bool {
+		if *budget <= 0 {
+			return false
+		}
+		if i == len(keys) {
+			*budget--
+			alt := rr
+			alt.objs = objs
+			e := specCluster(in, alt).route(rq)
+			ok, _ := e.agrees(ob)
+			return ok
+		}
+		seen := map[string]bool{}
+		for _, v := range append([]ver{nil}, versions[keys[i]]...) {
+			sig := fmt.Sprint(v == nil)
+			if v != nil && v.Service != nil {
+				sig = v.Service.Name + fmt.Sprint(v.Service.Port)
+			}
+			if seen[sig] {
+				continue
+			}
+			seen[sig] = true
+			var next []client.Object
+			found := false
+			for _, o := range objs {
+				if ing, ok := o.(*networking.Ingress); ok && ing.Namespace+"/"+ing.Name == keys[i] {
+					c := ing.DeepCopy()
+					c.Spec.DefaultBackend = v
+					next = append(next, c)
+					found = true
+				} else {
+					next = append(next, o)
+				}
+			}
+			if !found && v != nil {
+				// the ingress is gone now but its default backend may still be configured
+				ns, name, _ := strings.Cut(keys[i], "/")
+				g := world.Ingress(ns, name, 1)
+				g.Spec.DefaultBackend = v
+				next = append(next, g)
+				alt := rr
+				alt.valid = map[string]bool{}
+				for k2, b := range rr.valid {
+					alt.valid[k2] = b
+				}
+				alt.valid[keys[i]] = true
+				rrCopy := alt
+				rrCopy.objs = next
+				if i+1 == len(keys) {
+					*budget--
+					e := specCluster(in, rrCopy).route(rq)
+					if ok, _ := e.agrees(ob); ok {
+						return true
+					}
+					continue
+				}
+			}
+			if try(i+1, next, budget) {
+				return true
+			}
+		}
+		return false
+	}
+	budget := 64
+	if try(0, rr.objs, &budget) {
+		return "ingress-default-backend-not-pretracked"
+	}
+	return ""
 }
 
 // observe reads what is on disk now and routes the requests through it.
@@ -747,6 +919,21 @@ func corpus() []Input {
 		h.Steps = world.EncodeHistory([][]pipeline.Change{{{Op: pipeline.Update, Obj: svcA2}}})
 		out = append(out, h)
 	}
+	// history: the default host exists (ing1 "" /app -> svc1); ing2 with ONLY a host-less rule towards a
+	// service the default host does not use yet is created by a partial sync
+	{
+		h := mk("history: an ingress with only a host-less rule is added while the default host exists", "", false,
+			[]Req{{false, "other.example", "/app/x"}, {false, "other.example", "/api"}, {false, "other.example", "/zzz"}},
+			world.Service("ns1", "svc1", world.SvcPort{Name: "http", Port: 80, TargetPort: intstr.FromInt(8080)}),
+			world.Endpoints("ns1", "svc1", world.EpPort{Name: "http", Port: 8080, Ready: []string{"10.0.0.1"}}),
+			world.Service("ns1", "svc2", world.SvcPort{Name: "http", Port: 80, TargetPort: intstr.FromInt(8080)}),
+			world.Endpoints("ns1", "svc2", world.EpPort{Name: "http", Port: 8080, Ready: []string{"10.0.0.2"}}),
+			world.Ingress("ns1", "ing1", 10, world.IngRule{Host: "", Paths: []world.IngPath{{Path: "/app", Type: "Prefix", Service: "svc1", PortNum: 80}}}))
+		ing2 := world.Ingress("ns1", "ing2", 20, world.IngRule{Host: "", Paths: []world.IngPath{
+			{Path: "/app/x", Type: "Prefix", Service: "svc2", PortNum: 80}, {Path: "/api", Type: "Prefix", Service: "svc2", PortNum: 80}}})
+		h.Steps = world.EncodeHistory([][]pipeline.Change{{{Op: pipeline.Create, Obj: ing2}}})
+		out = append(out, h)
+	}
 	// witness of C03_maps_agree_refuted: /api ImplementationSpecific and /api Prefix on one host (plus / Prefix).
 	// The request /api is ambiguous (left unjudged: C04 leaves the order of equal-length rules
 	// unspecified); the real maps answer the begin rule (svc1), like the model of the generator.
@@ -851,6 +1038,7 @@ func main() {
 			}
 			// oracle: the property read directly on the objects as they are now
 			fails := 0
+			c01skips := 0
 			staleStrict := false
 			var keptReqs []Req
 			var keptObs []Observed
@@ -874,6 +1062,19 @@ func main() {
 				res.OracleChecks++
 				res.Count("verdict_" + ob.Verdict)
 				res.Count("expect_" + exp.Kind)
+				if ok, _ := exp.agrees(ob); !ok && si > 0 {
+					// C01/ingress-default-backend-not-pretracked (known): the spec.defaultBackend of an ingress
+					// added or updated by a partial sync is not applied (or an older one stays) until a full
+					// sync. Left unjudged only when the observation is exactly what the cluster gives with the
+					// default-backend declarations of the ingresses touched by the steps taken as absent / as before.
+					if cause := c01DefaultBackendCause(in, si, rr, rq, ob); cause != "" {
+						res.Count("unjudged_known_C01:" + cause)
+						keptReqs = keptReqs[:len(keptReqs)-1]
+						keptObs = keptObs[:len(keptObs)-1]
+						c01skips++
+						continue
+					}
+				}
 				if ok, what := exp.agrees(ob); !ok {
 					fails++
 					if fails <= 3 {
@@ -900,7 +1101,12 @@ func main() {
 				// not fed to it
 				res.Count("stage_not_modelled_stale_strict_host_path")
 			}
-			if !o.Search && len(keptReqs) > 0 && !in.SSLRedirect && !staleStrict {
+			if c01skips > 0 {
+				// the Coq model describes a full sync of the current cluster: a stage touched by the known
+				// C01 partial-sync defect is judged by the oracle on the other requests only
+				res.Count("stage_not_modelled_known_C01")
+			}
+			if !o.Search && len(keptReqs) > 0 && !in.SSLRedirect && !staleStrict && c01skips == 0 {
 				in, rr := in, rr
 				judged := in
 				judged.Requests = keptReqs
